@@ -169,8 +169,14 @@ def install(eng):
             c = z3.simplify(zi(lo) < zi(hi))
             if z3.is_true(c) or z3.is_false(c): c = z3.is_true(c)
             else:
-                s1 = st.clone(); s1.assume(c); eng.write_ref(s1, r, RangeV([zi(lo) + 1, hi], 'Range'))
+                # a range whose end is symbolic: the number of iterations is bounded by the engine's unwinding bound (obligation beyond it)
+                n = getattr(rg, 'n', 0)
                 s2 = st.clone(); s2.assume(z3.Not(c))
+                if n >= eng.K:
+                    eng.add_obligation('unwind', z3.And(st.pcz(), c), f'loop bound K={eng.K} (symbolic range)', st.frames[fr].body.name)
+                    return [(s2, NONE())]
+                nr = RangeV([z3.simplify(zi(lo) + 1) if isz(lo) else lo + 1, hi], 'Range'); nr.n = n + 1
+                s1 = st.clone(); s1.assume(c); eng.write_ref(s1, r, nr)
                 return [(s1, Some(lo)), (s2, NONE())]
         else: c = lo < hi
         if c:
@@ -410,6 +416,16 @@ def install(eng):
         return one(st, Agg(out))
     M(r'^std::array::from_fn', from_fn)
     # Box / Arc
+    # vec![a, b, ..] : Box::new_uninit(), write of the array through the raw pointer, box_assume_init_into_vec_unsafe
+    def new_uninit(e, st, fr, f, a, m):
+        k = ('uninit', next(e._tmpc)); st.frames[0].locals[k] = Agg([UNIT, Agg([Agg([UNIT])])], 'MaybeUninit')
+        return one(st, Agg([Agg([RefV(0, k, ())])], 'uninitbox'))
+    M(r'^std::boxed::Box::<\[.*\]>::new_uninit$', new_uninit)
+    def into_vec(e, st, fr, f, a, m):
+        cell = D(st, a[0].items[0].items[0]); arr = cell.items[1].items[0].items[0]
+        if arr is UNIT: raise Inconclusive('vec! from an unwritten box')
+        return one(st, VecV.dense(list(arr.items)))
+    M(r'^std::boxed::box_assume_init_into_vec_unsafe', into_vec)
     M(r'^std::(boxed::Box|sync::Arc|rc::Rc)::<.*>::new$', lambda e, st, fr, f, a, m: one(st, BoxV([a[0]])))
     M(r'^<std::(boxed::Box|sync::Arc|rc::Rc)<.*> as std::ops::Deref>::deref$', lambda e, st, fr, f, a, m: one(st, a[0].sub(0)))
     M(r'^<std::(boxed::Box|sync::Arc|rc::Rc)<.*> as std::convert::AsRef<.*>>::as_ref$', lambda e, st, fr, f, a, m: one(st, a[0].sub(0)))
